@@ -237,6 +237,27 @@ def _task_condition(task):
                         if not _is_bool(got, want):
                             t.violation({"kind": "comparison-big-int", "form": form, "got": str(got)[:30]},
                                         {"form": form + "-big", "op": op, "value": repr(lv), "literal": lit, "big": True}, expected=want, observed=repr(got))
+            # operands with far more than 4300 decimal digits (a 16384-bit field): the relation is computed, nothing turns them into text
+            from mc.observe import show
+            huge = [1 << 16383, (1 << 16383) + 1, (1 << 16384) - 1]
+            for lv, rv in itertools.product(huge, repeat=2):
+                want = interp.relate(op, lv, rv)
+                for form in ("Condition-param-param", "Comparison-own-raw", "Condition-param-small-literal"):
+                    t.evals += 1
+                    try:
+                        with observed_warnings():
+                            if form == "Condition-param-param":
+                                got = comparisons.Condition("L", op, right_param="R").evaluate(CCSDSPacket(L=common.IntParameter(lv), R=common.IntParameter(rv)))
+                            elif form == "Comparison-own-raw":
+                                got, want_f = comparisons.Comparison("7", "SELF", operator=op, use_calibrated_value=False).evaluate(CCSDSPacket(), lv), interp.relate(op, lv, 7)
+                            else:
+                                got, want_f = comparisons.Condition("L", op, right_value="7", right_use_calibrated_value=False).evaluate(CCSDSPacket(L=common.IntParameter(lv))), interp.relate(op, lv, 7)
+                    except Exception as e:  # noqa: BLE001
+                        got = f"raised:{type(e).__name__}"
+                    w_ = want if form == "Condition-param-param" else interp.relate(op, lv, 7)
+                    if not _is_bool(got, w_):
+                        t.violation({"kind": "comparison-huge-int", "form": form, "got": str(got)[:30]},
+                                    {"form": form + "-huge", "op": op, "left": show(lv), "right": show(rv), "big": True}, expected=w_, observed=str(got)[:60])
             # parameter vs literal
             for lv in nums + STR_VALS:
                 for lcal in (True, False):
